@@ -23,6 +23,7 @@ type Invocation struct {
 	TimedOut bool     `json:"timed_out,omitempty"`
 	Race     bool     `json:"race_report,omitempty"`
 	WallMS   int64    `json:"wall_ms"`
+	CPUSec   float64  `json:"cpu_s"`
 }
 
 // SpokOpts configures RunSpok.
@@ -70,6 +71,9 @@ func RunSpok(o SpokOpts) Invocation {
 	inv := Invocation{Args: o.Args, Dir: o.Dir, Stdout: so.String(), Stderr: se.String(), WallMS: time.Since(start).Milliseconds()}
 	if ctx.Err() != nil {
 		inv.TimedOut = true
+	}
+	if cmd.ProcessState != nil {
+		inv.CPUSec = (cmd.ProcessState.UserTime() + cmd.ProcessState.SystemTime()).Seconds()
 	}
 	if err != nil {
 		if ee, ok := err.(*exec.ExitError); ok {
